@@ -11,7 +11,7 @@ import (
 func init() {
 	register(&property{
 		ID:          "C10",
-		Explanation: "the round protocol of Solver.Assume: (R10.1) the assumption flags are re-created and the trail is reset before any new literal is installed, (R10.2) the status is reset to Indet before propagation and the only other status stored is Unsat under a conflict, (R10.3) every installed literal gets binding + flag + trail entry, and propagation from trail position 0 at level 1 lies on every path to return, (R10.4) where level 1 - which also holds the problem's unit clauses - is retracted wholesale, every recorded unit clause is bound again and pushed on the trail before propagation, (R10.5) every function binding unit clauses from outside (New, AppendClause's unit path) records them for that re-installation.",
+		Explanation: "the round protocol of Solver.Assume: (R10.1) the assumption flags are re-created and the trail is reset before any new literal is installed, (R10.2) the status is reset to Indet before propagation and the only other status stored is Unsat under a conflict, (R10.3) every installed literal is first tested not already false, then gets binding + flag + trail entry, and propagation from trail position 0 at level 1 lies on every path to return, (R10.4) where level 1 - which also holds the problem's unit clauses - is retracted wholesale, every recorded unit clause is bound again and pushed on the trail before propagation, (R10.5) every function binding unit clauses from outside (New, AppendClause's unit path) records them for that re-installation.",
 		NotDecided:  "that each round answers Sat exactly when problem and assumptions are jointly satisfiable (depends on the search and on conflict analysis under assumptions).",
 		Rules:       []ruleFn{ruleR10_1_3, ruleR10_4, ruleR10_5, ruleR10_6},
 	})
@@ -663,6 +663,34 @@ func ruleR10_1_3(w *World, r *Report) {
 			}
 			if !bound {
 				bad = append(bad, "the literal flagged at "+w.InstrPos(fs)+" is not bound in the model")
+			}
+			// the binding overwrites whatever the variable held: the literal must have been found not false first, in
+			// the same iteration (a test made in an earlier loop sees only the facts, not the assumptions bound since)
+			tested := false
+			for _, ec := range dominatingConds(b) {
+				bo, ok := ec.Cond.(*ssa.BinOp)
+				if !ok || (bo.Op != token.EQL && bo.Op != token.NEQ) {
+					continue
+				}
+				if k, ok := constInt(bo.Y); !ok || k != unsatK {
+					continue
+				}
+				c, ok := bo.X.(*ssa.Call)
+				if !ok || typeShort(c.Type()) != "solver.Status" {
+					continue
+				}
+				same := false
+				for _, a := range c.Call.Args {
+					if a == lit {
+						same = true
+					}
+				}
+				if same && ec.True == (bo.Op == token.NEQ) {
+					tested = true
+				}
+			}
+			if !tested {
+				bad = append(bad, "the literal flagged at "+w.InstrPos(fs)+" is bound without having been found not false in the same iteration: an assumption opposite to a unit clause or to an earlier assumption of the list overwrites that binding instead of making the round Unsat")
 			}
 			if !trailed {
 				bad = append(bad, "the literal flagged at "+w.InstrPos(fs)+" is not pushed on the trail, so it is never propagated")
